@@ -410,7 +410,7 @@ def _wrap_param(rng, base):
     return T.btmap(base)
 
 
-def gen_generic_program(rng, name, n_generics=None, n_ifaces=None, iface_assoc=True):
+def gen_generic_program(rng, name, n_generics=None, n_ifaces=None, iface_assoc=True, generic_error=False):
     """A generic contract (type parameters used directly / nested / only in a query response / not at all)
     with interfaces that may carry associated types."""
     p = gen_program(rng, name, n_ifaces=rng.choice([0, 1, 2]) if n_ifaces is None else n_ifaces)
@@ -497,4 +497,13 @@ def gen_generic_program(rng, name, n_generics=None, n_ifaces=None, iface_assoc=T
                 if t.kind != "tuple":
                     h["resp_ti"] = intern_type(p, t)
                     [h.pop(k_, None) for k_ in ("resp_explicit", "resp_decl_ti", "resp_literal")]
+    if generic_error:
+        # the contract's error type is a type parameter: it occurs in every handler's result type, in no argument
+        # and in no response type, so no message type carries it
+        p["generics"].append({"name": "ErrT", "concrete": p["error"], "bound": "svmon::ErrParam"})
+        p["error"] = "ErrT"
+        for part in p["parts"][1:]:
+            part["error"] = "ErrT"
+        for h in handlers(p):
+            h["ret_err"] = "own" if rng.random() < 0.8 else h["ret_err"]
     return p
